@@ -25,6 +25,14 @@ def build(tier):
     except ExtractionBreak as e:
         groups.append(z3lemma.StaticGroup("bkldlt.extraction", ok=False, detail=str(e), obligation="extraction of BKLDLT::compute", undecided_on_fail=True))
 
+    # cached singular vectors of the partial SVD: state of an earlier run must not leak into the next one (groups shared with C16)
+    try:
+        from props import C16
+        have = set(g.name for g in groups)
+        groups += [g for g in C16.build(tier)[0] if g.name in ("svd.compute", "svd.matrix_U", "svd.matrix_V") and g.name not in have]
+    except ExtractionBreak as e:
+        groups.append(z3lemma.StaticGroup("svd.extraction", ok=False, detail=str(e), obligation="extraction of PartialSVDSolver", undecided_on_fail=True))
+
     meta = {"level": "proof", "trusted_base": SG.TRUSTED, "assumptions": SG.ASSUMPTIONS, "extraction": report,
             "not_covered": ['bit-level determinism of Eigen kernels and of the operator (assumed)'],
             "explanation": 'init() re-creates every datum compute() can read, from an arbitrary object state'}
@@ -35,6 +43,8 @@ def replay(g, o, assigns, path):
     """Skeleton counterexamples are paths, not inputs: the replay searches the structured family of real inputs/histories of
     replay_src/solver_replay.cpp (mode 'history') on the REAL solvers."""
     from vlib import replay as RP
+    if g.name.startswith("svd."):
+        return RP.run_native(PROP, RP.src("C16_svd_replay.cpp"), args=[1], timeout=900)
     if g.name.startswith("bk."):
         return RP.run_native(PROP, RP.src("C10_bkldlt_replay.cpp"), timeout=900)
     if "cshift" in g.name and "exceptional exit" in (o.get("desc") or ""):
